@@ -121,45 +121,13 @@ def check(ctx):
     lo = lj.func("LJNode._load_or_node")
     ok = any(last_attr(c) == "seek" and c.args and unparse(c.args[0]) in ("self.root.dloc + offset", "offset + self.root.dloc") for c in calls_in(lo))
     ctx.ob("R1", f"{LJ}:LJNode._load_or_node", "node offsets are applied relative to dloc", ok, key="load_or_node|seek")
-    # _to_json_with_size: literal lengths vs offset increments
-    tj = lj.func("_to_json_with_size")
-    n_pairs = 0
-    for loop in [n for n in ast.walk(tj) if isinstance(n, ast.For)]:
-        body = loop.body
-        pending = None
-        for s in body:
-            if isinstance(s, ast.AugAssign) and is_name(s.target, "s") and isinstance(s.op, ast.Add) and isinstance(s.value, ast.BinOp) and isinstance(s.value.op, ast.Add) and isinstance(const_value(s.value.right), str):
-                pending = (s, const_value(s.value.right), unparse(s.value.left))
-            elif isinstance(s, ast.AugAssign) and is_name(s.target, "j") and isinstance(s.op, ast.Add) and pending is not None:
-                consts = [n.value for n in ast.walk(s.value) if isinstance(n, ast.Constant) and isinstance(n.value, int)]
-                k = sum(consts)
-                n_pairs += 1
-                ctx.ob("R1", f"{LJ}:_to_json_with_size", f"after appending `{pending[2]} + {pending[1]!r}` the offset advances by the element length + {len(pending[1])}", k == len(pending[1]), key=f"offset-step|{pending[1]!r}|{pending[2]}", where=loc(s), detail=f"found + {k}")
-                pending = None
-    for n in ast.walk(tj):
-        if isinstance(n, ast.If):
-            pass
-    # opening bracket: s = "{" / "[" with j = offset + 1
-    cfgs = [n for n in ast.walk(tj) if isinstance(n, ast.If)]
-    for blk in ast.walk(tj):
-        if isinstance(blk, ast.If):
-            for body in (blk.body, blk.orelse):
-                s0 = [s for s in body if isinstance(s, ast.Assign) and is_name(s.targets[0], "s") and isinstance(const_value(s.value), str)]
-                j0 = [s for s in body if isinstance(s, ast.Assign) and is_name(s.targets[0], "j")]
-                if s0 and j0:
-                    consts = [n.value for n in ast.walk(j0[0].value) if isinstance(n, ast.Constant) and isinstance(n.value, int)]
-                    n_pairs += 1
-                    ctx.ob("R1", f"{LJ}:_to_json_with_size", f"container opens with {const_value(s0[0].value)!r} and the first element offset is offset + {len(const_value(s0[0].value))}", sum(consts) == len(const_value(s0[0].value)) and "offset" in df.names_read(j0[0].value), key=f"open-step|{const_value(s0[0].value)}", where=loc(j0[0]))
-    del cfgs
-    if n_pairs < 5:
-        raise AnalysisError(f"{LJ}:_to_json_with_size: only {n_pairs} literal/offset pairs recognised")
-    # trailing separator removal strips exactly the separator appended
-    for n in ast.walk(tj):
-        if isinstance(n, ast.If) and isinstance(n.test, ast.Call) and last_attr(n.test) == "endswith":
-            sep = const_value(n.test.args[0])
-            cut = [s for s in n.body if isinstance(s, ast.Assign) and isinstance(s.value, ast.Subscript) and isinstance(s.value.slice, ast.Slice)]
-            ok = bool(cut) and isinstance(cut[0].value.slice.upper, ast.UnaryOp) and const_value(cut[0].value.slice.upper.operand) == len(sep)
-            ctx.ob("R1", f"{LJ}:_to_json_with_size", f"the trailing separator {sep!r} is removed by cutting exactly {len(sep)} characters", ok, key=f"strip-sep|{sep!r}", where=loc(n))
+    # _to_json_with_size: symbolic length accounting (c12_lengths.py), on the helper-transparent view
+    from .c12_lengths import check_container_loops
+
+    tj = flat(ctx, lj.func("_to_json_with_size"), depth=1)
+    n_loops = check_container_loops(ctx, tj, LJ, "_to_json_with_size")
+    if n_loops < 2:
+        raise AnalysisError(f"{LJ}:_to_json_with_size: only {n_loops} container loop(s) found (mapping and sequence confirmed by hand)")
 
     # ------------------------------------------------------------------ R2
     n_dumps = 0
